@@ -93,7 +93,7 @@ def intent(gen: int, rig, target_kind: str, target, call: int, args: list):
         if call == 2:
             if not spec.modes[args[0]]:
                 return ("refuse",)
-            return ("ac", dict(keep, mode=(SETTO, args[0]), power=(SETTO, 1) if args[1] else (KEEP, 0)))
+            return ("ac", dict(keep, mode=(SETTO, args[0]), power=(SETTO, 1) if args[1] % 2 else (KEEP, 0)))
         if call == 3:
             if args[0] >= len(spec.fans) or not spec.fans[args[0]]:
                 return ("refuse",)
@@ -174,7 +174,7 @@ def norm(d: dict) -> dict:
 
 # ------------------------------------------------------------------ the sweep shared by C04 and C11
 def call_space(gen: int, rng: random.Random, tier: str, temps: list[float]):
-    ac_calls = [(1, [i]) for i in range(5)] + [(2, [i, on]) for i in range(5) for on in (0, 1)] + [(3, [i]) for i in range(8)]
+    ac_calls = [(1, [i]) for i in range(5)] + [(2, [i, on]) for i in range(5) for on in (0, 1, 2, 3)] + [(3, [i]) for i in range(8)]
     ac_calls += [(4, [t]) for t in temps]
     ac_calls += [(5, [t, mins]) for t in (0, 1) for mins in (0, 1, 59, 60, 125, 1439)]
     ac_calls += [(6, [t, h, m]) for t in (0, 1) for (h, m) in ((0, 0), (7, 30), (23, 59))] + [(7, [0]), (7, [1]), (8, [])]
@@ -306,6 +306,24 @@ def run_sweep(ck: common.Check, prop: str, tier: str):
                                 ck.violation("public call departs from the property",
                                              dict(replay, kind="call", trigger={"class": f"call{replay['call']}"},
                                                   failure=f"frame {fr[8].hex()} reads {norm(rd)}, the call means {norm(want)}"))
+                if ci < 4:
+                    # damper values outside 0..100 that are not integers: refused like any other (no truncation first)
+                    import fractions
+                    for z in list(ac.zones)[:2]:
+                        for x in (-0.5, -0.25, 100.5, 100.9, fractions.Fraction(201, 2), -1e-9):
+                            ck.count()
+                            dist[f"at{gen}_non_integer_damper"] += 1
+                            n_rx = len(rig.console.received)
+                            r = rig.run(z.set_damper_percentage(x))
+                            rig.pump()
+                            if r != ("exc", "ValueError") or len(rig.console.received) != n_rx:
+                                reported[(gen, "damper-type")] += 1
+                                if reported[(gen, "damper-type")] <= 2:
+                                    ck.violation("public call departs from the property",
+                                                 {"gen": gen, "kind": "call", "call": 13, "args": [repr(x)], "zone": z.zone_id,
+                                                  "trigger": {"class": "call13-non-integer"},
+                                                  "failure": f"damper value {x!r} is outside 0..100: must raise ValueError and transmit nothing; "
+                                                             f"got {r} and {len(rig.console.received) - n_rx} frame(s)"})
                 if ci < 6:
                     link_down_calls(ck, gen, rig, ac, reported, dist, {"gen": gen, "ability": {"modes": modes, "fans": fans, "limits": lims, "ac_number": acn}})
             finally:
